@@ -12,6 +12,9 @@ From Verif.Eco.Gentoo Require Entry.
 From Verif.Eco.Nuget Require Entry.
 From Verif.Eco.Debian Require Entry.
 From Verif.Eco.Alpine Require Entry.
+From Verif.Eco.Pypi Require Entry.
+From Verif.Eco.Maven Require Entry.
+From Verif.Eco.Golang Require Entry.
 
 Definition ecosystems : list eco := [
   Cran.Entry.entry;
@@ -24,5 +27,8 @@ Definition ecosystems : list eco := [
   Gentoo.Entry.entry;
   Nuget.Entry.entry;
   Debian.Entry.entry;
-  Alpine.Entry.entry
+  Alpine.Entry.entry;
+  Pypi.Entry.entry;
+  Maven.Entry.entry;
+  Golang.Entry.entry
 ].
